@@ -1,6 +1,8 @@
 HOOK_COMMITS = ["876062f"]
 
 ENGINES = [
+    dict(name="probes", path="probes", serves_properties=["C12", "C13", "C15", "C16", "C19"],
+         kind_free_text="adversarial compile-and-run corpus: direct rustc against the rlib cargo builds from /repo, diagnostic classes, positive twins, accepted probes run natively / ASan / Miri"),
     dict(name="tracerec", path="harness/src/bin/tracerec", serves_properties=["C15", "C16"],
          kind_free_text="recording Trace implementation over generated derive shapes (gen/shapes.py) and a table of the provided Collect impls"),
     dict(name="layoutmon", path="harness/src/bin/layoutmon", serves_properties=["C17", "C18", "C19", "C11"],
@@ -40,6 +42,8 @@ TEXT = {
     "C19": _t("Seeded conversion chains judged for identity, survival and single destruction; ZstCache grid; (conjuring probes: compile + run).", _NOTE, "conversion-chain monitor; ZstCache grid", engine="layoutmon"),
     "C15": _t("Recording implementation of the public Trace trait over a generated corpus of derived types; reported (pointer, strength) multiset and NEEDS_TRACE compared with generator-computed expectations; end-to-end survival through a real arena; derive rejections by compile probes with compiling twins.", _NOTE, "recording tracer over generated shapes + compile probes", engine="tracerec"),
     "C16": _t("Same recorder over a table of every provided impl x parameter position x element position x size, under several feature sets; survival round per container.", _NOTE, "recording tracer over impl table x feature sets", engine="tracerec"),
+    "C12": _t("Compile-probe corpus with positive twins decides the mechanisms the property names (invariant brand, higher-ranked callbacks, auto traits) on a finite adversarial corpus; accepted probes would be run under monitors. Edge of the family: the first oracle is the compiler's verdict.", "Trusts rustc. A corpus cannot exclude an escape nobody wrote a probe for.", "compile-and-run probe corpus with positive twins", engine="probes"),
+    "C13": _t("As the statement words it: every probe is rejected by the compiler or runs (native, ASan, Miri) without the adopted child being destructed while reachable.", "Trusts rustc, ASan, Miri. Finite corpus.", "compile-and-run probe corpus under sanitizers", engine="probes"),
 }
 
-NOT_APPLICABLE = {p: "check not built yet in this revision (in progress)" for p in ["C12", "C13"]}
+NOT_APPLICABLE = {}
